@@ -6,6 +6,7 @@ CONSTANTS
   Expected <- MCExpected
   OpEager <- MCOpEager
   Policy <- MCPolicy
+  Analysis <- MCAnalysis
 INIT Init
 NEXT Next
 INVARIANTS Refines HandlesValid
